@@ -497,6 +497,16 @@ func (a *Authenticator) ClientHandshake(ctx context.Context) (*SecurityNegotiati
 				Reason:    "pre-registered session not found in cache",
 			}
 		}
+		// As on the command-map path below and on the server: only a session that carries
+		// an AES key can be resumed. The key is what protects the resumed connection; a
+		// keyless entry would otherwise "resume" into a plaintext stream that reports the
+		// cached identity, on nothing more than the peer's AUTHORIZED.
+		if entry.KeyInfo() == nil || len(entry.KeyInfo().Data) == 0 || !isAESGCM(CryptoMethod(entry.KeyInfo().Protocol)) {
+			return nil, &SessionResumptionError{
+				SessionID: a.config.SessionID,
+				Reason:    "pre-registered session carries no AES key and cannot be resumed",
+			}
+		}
 		if a.config.Authentication == SecurityRequired && !sessionAuthenticated(entry) {
 			return nil, &SessionResumptionError{
 				SessionID: a.config.SessionID,
